@@ -664,7 +664,13 @@ class Lexer:
                     raise TemplateSyntaxError(str(e), lineno, name, filename) from e
             elif token == TOKEN_FLOAT:
                 # remove all "_" first to support more Python versions
-                value = literal_eval(value_str.replace("_", ""))
+                try:
+                    value = literal_eval(value_str.replace("_", ""))
+                except (ValueError, SyntaxError) as e:
+                    # digits other than 0-9 match \d but are no Python literal
+                    raise TemplateSyntaxError(
+                        f"invalid float literal {value_str!r}", lineno, name, filename
+                    ) from e
             elif token == TOKEN_OPERATOR:
                 token = operators[value_str]
 
